@@ -256,10 +256,55 @@ def named_gate(name, p):
     return getattr(cirq, name)
 
 
+# Named two-qubit gates that target gatesets special-case ("known gate" fast paths), raised to a table of special exponents
+BARE2Q = ["ISWAP", "SWAP", "CZ", "CNOT", "CY", "SQRT_ISWAP", "SQRT_ISWAP_INV", "ISWAP_INV", "ZZ", "XX", "YY", "FSIM_SYC", "FSIM_ISWAP", "FSIM_CZ",
+          "FSIM_PHI", "FSIM_GEN", "SYC", "PISWAP", "MS", "GIVENS"]
+BARE_EXPONENTS = [1.0, 1.0, -1.0, -1.0, 2.0, -2.0, 3.0, -3.0, 4.0, 5.0, -5.0, 7.0, 0.5, -0.5, 1.5, -1.5, 2.5, -2.5, 0.25, -0.25, 0.75, 1 / 3, 0.0]
+
+
+def bare2q_gate(name, e):
+    import cirq
+    import cirq_google
+
+    base = {
+        "ISWAP": cirq.ISWAP, "SWAP": cirq.SWAP, "CZ": cirq.CZ, "CNOT": cirq.CNOT, "CY": cirq.CY, "SQRT_ISWAP": cirq.SQRT_ISWAP,
+        "SQRT_ISWAP_INV": cirq.SQRT_ISWAP_INV, "ISWAP_INV": cirq.ISWAP_INV, "ZZ": cirq.ZZ, "XX": cirq.XX, "YY": cirq.YY,
+        "FSIM_SYC": cirq.FSimGate(np.pi / 2, np.pi / 6), "FSIM_ISWAP": cirq.FSimGate(np.pi / 2, 0), "FSIM_CZ": cirq.FSimGate(0, np.pi),
+        "FSIM_PHI": cirq.FSimGate(0, np.pi / 3), "FSIM_GEN": cirq.FSimGate(np.pi / 4, np.pi / 5), "SYC": cirq_google.SYC,
+        "PISWAP": cirq.PhasedISwapPowGate(phase_exponent=0.25), "MS": cirq.ms(np.pi / 4), "GIVENS": cirq.givens(np.pi / 3),
+    }[name]
+    if e == 1.0:
+        return base
+    g = cirq.pow(base, e, None)
+    return base if g is None else g
+
+
+@st.composite
+def bare_circuits(draw, measure=True):
+    """Circuits in which every two-qubit gate is ALONE in its connected component (reaches the gateset's decomposer as a bare
+    named gate, not as a merged matrix): segments separated by no-compile barriers on every wire."""
+    n = draw(st.sampled_from([2, 2, 3]))
+    r = draw(GC.wires(n, n))
+    ops = []
+    nseg = draw(st.integers(1, 3))
+    for s_i in range(nseg):
+        pair = list(draw(st.permutations(list(range(n)))))[:2]
+        ops.append({"k": "bare2q", "name": draw(st.sampled_from(BARE2Q)), "e": draw(st.sampled_from(BARE_EXPONENTS)), "w": pair, "ins": 0})
+        if n == 3 and draw(st.booleans()):  # something on the idle wire: its own component
+            idle = [i for i in range(n) if i not in pair][0]
+            ops.append({"k": "named", "name": draw(st.sampled_from(["H", "T", "X"])), "p": 1.0, "w": [idle], "ins": 0})
+        if s_i + 1 < nseg:
+            for i in range(n):
+                ops.append({"k": "named", "name": "X", "p": 1.0, "w": [i], "ins": 0 if i else 1, "ign": True})
+    r["ops"] = ops
+    r["meas"] = sorted(draw(st.lists(st.integers(0, n - 1), max_size=n, unique=True))) if measure and draw(st.integers(0, 3)) == 0 else []
+    return r
+
+
 @st.composite
 def _plain_op(draw, n, max_arity=3, allow_phase=False):
     """One non-nested op recipe on ``n`` wires."""
-    kinds = ["lib", "lib", "lib", "kak", "u1", "native", "native", "named", "named"]
+    kinds = ["lib", "lib", "lib", "kak", "u1", "native", "native", "named", "named", "bare2q"]
     if n < 2:
         kinds = ["lib", "u1", "native", "named"]
     if allow_phase:
@@ -280,6 +325,8 @@ def _plain_op(draw, n, max_arity=3, allow_phase=False):
         return {"k": "u1", "v": draw(st.lists(G.small_floats(), min_size=8, max_size=8)), "w": [perm[0]]}
     if k == "gphase":
         return {"k": "gphase", "t": draw(G.exponents()), "w": []}
+    if k == "bare2q":
+        return {"k": "bare2q", "name": draw(st.sampled_from(BARE2Q)), "e": draw(st.sampled_from(BARE_EXPONENTS)), "w": list(perm[:2])}
     if k == "named":
         name = draw(st.sampled_from([x for x, a in NAMED.items() if a <= min(n, max_arity)]))
         return {"k": "named", "name": name, "p": draw(G.exponents()), "w": list(perm[: NAMED[name]])}
@@ -329,6 +376,10 @@ def build_plain_op(r, o, g):
     elif k == "gphase":
         op = cirq.global_phase_operation(np.exp(2j * np.pi * float(o["t"])))
         return op  # zero-qubit operations are never tagged (outside the property's domain of 1-3 qubit operations)
+    elif k == "bare2q":
+        if len(qs) < 2:
+            return None
+        op = bare2q_gate(o["name"], float(o.get("e", 1.0))).on(*qs[:2])
     elif k == "named":
         gate = named_gate(o["name"], float(o.get("p", 1.0)))
         if cirq.num_qubits(gate) > len(qs):
@@ -379,7 +430,10 @@ def compile_cases(draw, kinds=None, thorough=False, max_w=3, max_ops=7):
     gp = g["k"] in ("cz", "sqrt_iswap", "syc", "gcz", "ionq", "aria", "forte") and draw(st.integers(0, 5)) == 0
     meas = not (g["k"] == "gcz" and g["eject"])
     only_native = {0: True, 1: "plus1q"}.get(draw(st.integers(0, 7)), False)
-    r = draw(compile_circuits(1, max_w, max_ops, nested=True, ignored=True, measure=meas, phase=gp, only_native=only_native))
+    if draw(st.integers(0, 5)) == 0:
+        r = draw(bare_circuits(measure=meas))
+    else:
+        r = draw(compile_circuits(1, max_w, max_ops, nested=True, ignored=True, measure=meas, phase=gp, only_native=only_native))
     has_cop = any(o["k"] == "cop" for o in r["ops"])
     deep = bool(has_cop and unroll and draw(st.integers(0, 2)) != 0)
     return {"circ": r, "gs": g, "passes": draw(st.sampled_from([1, 1, None, 2])), "deep": deep}
@@ -392,9 +446,12 @@ def twoq_cases(draw, thorough=False):
     r = draw(GC.wires(2, 2))
     single = draw(st.booleans())
     if single:
-        kind = draw(st.sampled_from(["kak", "kak", "kak", "lib"]))
+        kind = draw(st.sampled_from(["kak", "kak", "kak", "lib", "bare2q", "bare2q"]))
         if kind == "kak":
             ops = [{"k": "kak", "p": draw(kak_params()), "w": list(draw(st.permutations([0, 1])))}]
+        elif kind == "bare2q":
+            ops = [{"k": "bare2q", "name": draw(st.sampled_from(BARE2Q)), "e": draw(st.sampled_from(BARE_EXPONENTS)),
+                    "w": list(draw(st.permutations([0, 1])))}]
         else:
             gg = draw(G.gate_recipes(lambda f: _lib_pred(f) and (f.arity == 2), max_arity=2))
             ops = [{"k": "lib", "g": gg, "w": list(draw(st.permutations([0, 1])))}]
@@ -694,7 +751,12 @@ def grid_device_cases(draw):
         ops = ops + draw(device_ops(nq, len(off), keys=members, min_ops=3, max_ops=7))
     order = draw(st.permutations(list(range(len(ops)))))
     ops = [ops[i] for i in order]
+    # circuit of REPEATED equal gates that differ only in tags / qubits (bulk validation paths must decide per operation)
+    sens = ["Z_T", "S", "FSIM_OTHER", "FSIM_SYC", "SYC", "FSIM_CZ", "FSIM_SQRT_ISWAP"]
+    palette = draw(st.lists(st.sampled_from(sens + sens + (members or sens)), min_size=1, max_size=2))
+    tcirc = draw(device_ops(nq, len(off) if draw(st.integers(0, 3)) == 0 else 0, keys=palette, min_ops=2, max_ops=7))
     return {"qubits": [list(q) for q in qs], "off": [list(q) for q in off], "off_kind": draw(st.sampled_from(["grid", "grid", "line", "named"])),
+            "tcirc": tcirc, "tcirc_new": draw(st.booleans()),
             "pairs": pairs, "specs": specs, "via": draw(st.sampled_from(["proto", "proto", "metadata", "roundtrip"])),
             "distract": draw(st.booleans()), "durations": draw(st.booleans()),
             "ops": ops, "circ": draw(st.lists(st.integers(0, 13), max_size=6)), "circ_valid_only": draw(st.booleans())}
@@ -830,6 +892,11 @@ def vendor_device_cases(draw):
         ops += draw(device_ops(nq, 0, ["CZ", "CZ", "CZ_INV", "CZ_SQ"], tags=False, min_ops=2, max_ops=5))  # distance-limited gates
         case["ops"] = [ops[i] for i in draw(st.permutations(list(range(len(ops)))))]
         case["off_kind"] = draw(st.sampled_from(["same", "same", "named"]))
+    # circuit of repeated equal gates on varying (on-/off-device) qubits
+    vkeys = {"ionq": VENDOR_KEYS_IONQ, "aqt": VENDOR_KEYS_AQT}.get(kind, VENDOR_KEYS_PASQAL)
+    palette = draw(st.lists(st.sampled_from([k for k in vkeys if k != "MEAS_INV"]), min_size=1, max_size=2))
+    case["tcirc"] = draw(device_ops(nq, n_off if draw(st.booleans()) else 0, keys=palette, min_ops=2, max_ops=6, tags=False))
+    case["tcirc_new"] = draw(st.booleans())
     return case
 
 
@@ -838,11 +905,42 @@ def twoq_cases_single(draw):
     """One 2-qubit unitary x a sqrt-iSWAP target (the oracle iterates required_sqrt_iswap_count itself)."""
     g = {"k": "sqrt_iswap", "atol": draw(st.sampled_from(ATOLS)), "inv": draw(st.booleans()), "req": None, "add": []}
     r = draw(GC.wires(2, 2))
-    if draw(st.integers(0, 3)) == 0:
+    sel = draw(st.integers(0, 5))
+    if sel == 0:
         gg = draw(G.gate_recipes(lambda f: _lib_pred(f) and (f.arity == 2), max_arity=2))
         ops = [{"k": "lib", "g": gg, "w": list(draw(st.permutations([0, 1])))}]
+    elif sel == 1:
+        ops = [{"k": "bare2q", "name": draw(st.sampled_from(BARE2Q)), "e": draw(st.sampled_from(BARE_EXPONENTS)), "w": list(draw(st.permutations([0, 1])))}]
     else:
         ops = [{"k": "kak", "p": draw(kak_params()), "w": list(draw(st.permutations([0, 1])))}]
     r["ops"] = ops
     r["meas"] = []
     return {"circ": r, "gs": g, "passes": draw(st.sampled_from([1, 1, None, 2])), "deep": False, "single": True}
+
+
+def bare_table(tier):
+    """Finite table: every named two-qubit gate x every special exponent, alone in a 2-qubit circuit, x target gatesets with
+    default options (quick: the three core two-qubit targets + one rotating vendor target; thorough: all targets, both qubit orders)."""
+    exps = sorted(set(BARE_EXPONENTS))
+
+    def gs(kind, i):
+        return {"cz": {"k": "cz", "atol": 1e-8, "partial": bool(i % 2), "add": [], "pms": True, "reorder": False},
+                "sqrt_iswap": {"k": "sqrt_iswap", "atol": 1e-8, "inv": bool(i % 2), "req": None, "add": []},
+                "syc": {"k": "syc", "atol": 1e-8, "tab": False}, "gcz": {"k": "gcz", "atol": 1e-8, "eject": False, "add": []},
+                "ionq": {"k": "ionq", "atol": 1e-8}, "aria": {"k": "aria", "atol": 1e-8}, "forte": {"k": "forte", "atol": 1e-8},
+                "aqt": {"k": "aqt"}, "pasqal": {"k": "pasqal", "ctrl": bool(i % 2)}}[kind]
+
+    out = []
+    i = 0
+    vendors = ["gcz", "ionq", "aria", "forte", "aqt", "pasqal"]
+    for name in BARE2Q:
+        for e in exps:
+            i += 1
+            kinds = ["syc", "cz", "sqrt_iswap", vendors[i % len(vendors)]] if tier == "quick" else ["syc", "cz", "sqrt_iswap"] + vendors
+            orders = [[0, 1]] if tier == "quick" else [[0, 1], [1, 0]]
+            for kind in kinds:
+                for w in orders:
+                    circ = {"dims": [2, 2], "names": [1, 0] if i % 2 else [0, 2], "qkind": "line", "meas": [],
+                            "ops": [{"k": "bare2q", "name": name, "e": e, "w": w if tier != "quick" or i % 3 else w[::-1], "ins": 0}]}
+                    out.append({"circ": circ, "gs": gs(kind, i), "passes": 1, "deep": False, "single": True})
+    return out
